@@ -5,11 +5,11 @@
    The law: reading what was written gives the leaf back (with and without a list).  Every state is
    an input of S2: to_newick(labels) / from_newick(newick, labels) with and without distances. *)
 EXTENDS Phylo, TLC
-CONSTANTS MaxLeaves, MaxArity
+CONSTANTS MaxLeaves, MaxArity, FullUpTo     \* all numeral lists for trees with <= FullUpTo leaves
 VARIABLES inp, labels, phase
 vars == <<inp, labels, phase>>
 
-Init == /\ \E n \in 1..MaxLeaves : inp \in TreesOver(0..(n - 1), MaxArity, FALSE, 2) /\ labels \in LabelLists(n)
+Init == /\ \E n \in 1..MaxLeaves : inp \in TreesOver(0..(n - 1), MaxArity, FALSE, 2) /\ labels \in LabelLists(n, n <= FullUpTo)
         /\ phase = 0
 Next == phase = 0 /\ phase' = 1 /\ UNCHANGED <<inp, labels>>
 Spec == Init /\ [][Next]_vars
